@@ -46,7 +46,18 @@ def not_list(st: PState, m: str) -> str:
     return ""
 
 
-def skip_reason(st: PState, m: str, ids) -> tuple:
+def _sentinels(tree) -> set:
+    """module-level names bound to a bare `object()`: private markers no received message can be identical to"""
+    out = set()
+    for n in tree.body:
+        v = n.value if isinstance(n, (ast.Assign, ast.AnnAssign)) else None
+        if isinstance(v, ast.Call) and call_name(v) == "object" and not v.args:
+            tg = n.targets if isinstance(n, ast.Assign) else [n.target]
+            out |= {t.id for t in tg if isinstance(t, ast.Name)}
+    return out
+
+
+def skip_reason(st: PState, m: str, ids, sentinels=frozenset()) -> tuple:
     """Why a path that received `m` may go round the loop again without returning it: a literal on the path that a
     matching response (id equal, no method, not a list) cannot satisfy.  Returns (reason, opaque literals)."""
     idx = (f"getattr({m}, 'id', None)", f"{m}.id")
@@ -66,11 +77,11 @@ def skip_reason(st: PState, m: str, ids) -> tuple:
         if isinstance(core, ast.Compare) and len(core.ops) == 1:
             a, b, op = ast.unparse(core.left), ast.unparse(core.comparators[0]), core.ops[0]
             for x, y in ((a, b), (b, a)):
-                if x == m and y == "None" and isinstance(op, ast.Is):
+                if x == m and (y == "None" or y in sentinels) and isinstance(op, ast.Is):
                     return l, opaque  # nothing was received: None is not a response
                 if x in idx and isinstance(op, ast.NotEq) and (not ids or y in ids):
                     return l, opaque
-                if x in meth and ((isinstance(op, ast.IsNot) and y == "None") or (isinstance(op, ast.Eq) and y != "None" and y[:1] in "'\"") or (isinstance(op, ast.In) and x == a)):
+                if x in meth and ((isinstance(op, ast.IsNot) and y == "None") or (isinstance(op, ast.Eq) and y != "None" and (y[:1] in "'\"" or y.split(".")[-1].lstrip("_").isupper())) or (isinstance(op, ast.In) and x == a)):
                     return l, opaque
             continue
         if not neg and (txt in meth or txt == f"hasattr({m}, 'method')"):
@@ -100,7 +111,7 @@ def skipped_messages(W, ids, R):
         if not ms:
             continue  # nothing was received in this iteration (the poll interval ran out)
         m = ms[0]
-        why, opaque = skip_reason(st, m, ids)
+        why, opaque = skip_reason(st, m, ids, _sentinels(W.wait.module.tree))
         key = (why, tuple(opaque)) if why else tuple(sorted(l for l in st.lits if m in l))
         if key in seen:
             continue
